@@ -1,4 +1,6 @@
 import DclabModel.Lemmas.Anc
+import DclabModel.Lemmas.AncFuel
+import DclabModel.Lemmas.AncGap
 import DclabModel.Gen.AncTable
 /-!
 # C06 — Computed (ancillary) features always reflect the current data and settings
@@ -384,6 +386,353 @@ example :
     let s0 : St String String := { temp := [], cfg := [("imaging:pixel size", "0.34")] }
     let r := run e 3 id (s0, []) [.read "area_um", .setC "imaging:pixel size" "0.5", .read "area_um"]
     r.1.2.length = 2 := by
+  decide +kernel
+
+/-! ## 6. termination: the recursion of `is_available` / `__getitem__` reaches a fixpoint -/
+
+/-- obligation over the regenerated tables: the rank emitted by `translate()` strictly decreases
+along every call `is_available` can make (a recipe providing a required feature, a
+higher-priority recipe of the same name).  A cyclic recipe in dclab makes this fail. -/
+theorem table_ranked : rankedB liveSpecs rankTable = true := by decide +kernel
+
+/-- a recursion depth that suffices for every feature of the live registry -/
+def liveFuel : Nat := fuelBound rankTable
+
+theorem live_rankOK (innate : List (Feat × String)) :
+    RankOK (envOf liveSpecs innate) (rkOf rankTable) :=
+  rankOK_of_rankedB liveSpecs innate rankTable table_ranked
+
+/-- Fuel sufficiency, general form: in every sound registry with a rank that decreases along
+the call relation, availability, selection and the computed value of a feature are the same for
+EVERY fuel ≥ `featFuel f` (1 + the largest rank of `f`'s recipes): the recursion terminates with
+that fixpoint value, "for every fuel" in the other theorems means "for the value the
+terminating recursion returns". -/
+theorem fuel_sufficient {D V : Type} {e : Env D V} (hs : Sound e) {rk : Recipe D V → Nat}
+    (hk : RankOK e rk) (s : St D V) (f : Feat) (n : Nat) (hn : featFuel e rk f ≤ n) :
+    avail e n s f = avail e (featFuel e rk f) s f ∧
+    selected e n s f = selected e (featFuel e rk f) s f ∧
+    fresh e n s f = fresh e (featFuel e rk f) s f :=
+  ⟨avail_fuel hk s n _ f hn (Nat.le_refl _), selected_fuel hk s n _ f hn (Nat.le_refl _),
+   fresh_fuel hs hk s n _ f hn (Nat.le_refl _)⟩
+
+/-- … with the cache: the answer of the long-lived dataset is fuel-independent as well -/
+theorem getitem_fuel_sufficient {D V : Type} [DecidableEq D] [DecidableEq V] {e : Env D V}
+    (hs : Sound e) {rk : Recipe D V → Nat} (hk : RankOK e rk) (s : St D V) (C : Cache D V)
+    (hw : Wf e s) (hC : Inv e C) (f : Feat) (n : Nat) (hn : featFuel e rk f ≤ n) :
+    (getitem e n C s f).2 = (getitem e (featFuel e rk f) C s f).2 :=
+  getitem_fuel hs hk s C hw hC n _ f hn (Nat.le_refl _)
+
+/-- the live registry: one fuel (`liveFuel`) for all features -/
+theorem live_fuel_sufficient (innate : List (Feat × String)) (s : St String String) (f : Feat)
+    (n : Nat) (hn : liveFuel ≤ n) :
+    avail (envOf liveSpecs innate) n s f = avail (envOf liveSpecs innate) liveFuel s f ∧
+    selected (envOf liveSpecs innate) n s f = selected (envOf liveSpecs innate) liveFuel s f ∧
+    fresh (envOf liveSpecs innate) n s f = fresh (envOf liveSpecs innate) liveFuel s f := by
+  have hb := featFuel_le_bound (envOf liveSpecs innate) rankTable f
+  have hk := live_rankOK innate
+  have hs := sound_of_soundB liveSpecs innate table_sound
+  exact ⟨avail_fuel hk s n _ f (Nat.le_trans hb hn) hb,
+         selected_fuel hk s n _ f (Nat.le_trans hb hn) hb,
+         fresh_fuel hs hk s n _ f (Nat.le_trans hb hn) hb⟩
+
+theorem selectedSpec_fuel (innate : List (Feat × String)) (s : St String String) (f : Feat)
+    (n : Nat) (hn : liveFuel ≤ n) :
+    selectedSpec liveSpecs innate n s f = selectedSpec liveSpecs innate liveFuel s f := by
+  simp only [selectedSpec]
+  congr 1
+  apply filter_congr_mem
+  intro p hp
+  have hr : p.toRecipe ∈ (envOf liveSpecs innate).reg := by
+    simp only [envOf, List.mem_map]; exact ⟨p, hp, rfl⟩
+  have hlt : rkOf rankTable p.toRecipe < liveFuel := by
+    have := rankOf_le_bound rankTable p.toRecipe.name p.toRecipe.priority
+    simp only [rkOf, liveFuel]; omega
+  rw [recAvail_fuel (live_rankOK innate) s n liveFuel _ hr (by omega) hlt]
+
+/-- the documented precedence at the fixpoint: for all 64 combinations and EVERY recursion
+depth ≥ `liveFuel` (not just one chosen fuel) -/
+theorem emodulus_precedence_fixpoint :
+    allCombos.all (fun c =>
+      (selectedSpec liveSpecs (comboInnate c) liveFuel (comboState c "CellCarrier") "emodulus").map
+        (·.tag) == precedenceSpec c) = true := by decide +kernel
+
+theorem emodulus_precedence_all_fuel (c : Combo) (hc : c ∈ allCombos) (n : Nat)
+    (hn : liveFuel ≤ n) :
+    (selectedSpec liveSpecs (comboInnate c) n (comboState c "CellCarrier") "emodulus").map (·.tag)
+      = precedenceSpec c := by
+  rw [selectedSpec_fuel _ _ _ n hn]
+  have h := List.all_eq_true.mp emodulus_precedence_fixpoint c hc
+  simpa using h
+
+def cycA : Spec :=
+  { idx := 0, name := "a", priority := 0, reqF := ["b"], reqC := [], guard := .always,
+    extraC := [], extraF := [], readsF := ["b"], readsC := [], outs := ["a"], method := "m",
+    tag := "" }
+def cycB : Spec := { cycA with idx := 1, name := "b", reqF := ["a"], readsF := ["a"], outs := ["b"] }
+
+/-- a cyclic registry admits no rank at all: the obligation `table_ranked` cannot be met -/
+theorem cyclic_never_ranked (tbl : RankTable) : rankedB [cycA, cycB] tbl = false := by
+  cases h : rankedB [cycA, cycB] tbl with
+  | false => rfl
+  | true =>
+    exfalso
+    simp only [rankedB, List.all_cons, List.all_nil, Bool.and_true, Bool.and_eq_true,
+      Bool.or_eq_true, Bool.not_eq_true', decide_eq_true_eq] at h
+    obtain ⟨⟨_, h1⟩, ⟨h2, _⟩⟩ := h
+    have d1 : dependsS cycA cycB = true := by decide
+    have d2 : dependsS cycB cycA = true := by decide
+    rw [d1] at h1; rw [d2] at h2
+    simp only [Bool.true_eq_false, false_or] at h1 h2
+    have e1 : cycA.name = "a" := rfl
+    have e2 : cycB.name = "b" := rfl
+    have e3 : cycA.priority = 0 := rfl
+    have e4 : cycB.priority = 0 := rfl
+    rw [e1, e2, e3, e4] at h1 h2
+    omega
+
+/-- … and the in-model rank computation reports it -/
+example : rankedB [cycA, cycB] (computeRanks [cycA, cycB]) = false := cyclic_never_ranked _
+
+/-- non-vacuity: fuel matters below the bound (with fuel 1 the lowest-priority emodulus recipe
+looks available because the higher-priority ones could not be examined), not above it -/
+example :
+    let c : Combo := ⟨true, true, true, false, true, true⟩
+    (liveSpecs.filter (fun p => p.name == "emodulus"
+        && recAvail (comboEnv c) 2 (comboState c "CellCarrier") p.toRecipe)).length
+      ≠ (liveSpecs.filter (fun p => p.name == "emodulus"
+        && recAvail (comboEnv c) liveFuel (comboState c "CellCarrier") p.toRecipe)).length := by
+  decide +kernel
+
+/-! ## 7. exactly where availability and runnability differ -/
+
+def emodMedia : List String := ["CellCarrier", "water", "other"]
+
+/-- Over the regenerated table, for all 64 key/`temp` combinations and a known medium, another
+known medium and "other": `"emodulus" in ds` ⇔ (`ds["emodulus"]` succeeds ∨ `emodGapS`), and
+inside `emodGapS` reading fails.  So outside the decidable class `emodGapS` availability and
+runnability coincide, inside it the feature is available but raises (F07, open). -/
+theorem emodulus_available_iff_runnable_exact :
+    allCombos.all (fun c => emodMedia.all (fun m =>
+      let a := avail (comboEnv c) liveFuel (comboState c m) "emodulus"
+      let r := (fresh (comboEnv c) liveFuel (comboState c m) "emodulus").isSome
+      let g := emodGapS (comboState c m) c.tempF
+      (a == (r || g)) && !(g && r))) = true := by decide +kernel
+
+/-- the same for every recursion depth ≥ `liveFuel`, as an equivalence and a witness -/
+theorem emodulus_available_iff_runnable_all_fuel (c : Combo) (hc : c ∈ allCombos) (m : String)
+    (hm : m ∈ emodMedia) (n : Nat) (hn : liveFuel ≤ n) :
+    (emodGapS (comboState c m) c.tempF = false →
+      (avail (comboEnv c) n (comboState c m) "emodulus" = true
+        ↔ (fresh (comboEnv c) n (comboState c m) "emodulus").isSome = true)) ∧
+    (emodGapS (comboState c m) c.tempF = true →
+      avail (comboEnv c) n (comboState c m) "emodulus" = true
+        ∧ fresh (comboEnv c) n (comboState c m) "emodulus" = none) := by
+  obtain ⟨ha, _, hf⟩ := live_fuel_sufficient (comboInnate c) (comboState c m) "emodulus" n hn
+  have h := List.all_eq_true.mp (List.all_eq_true.mp emodulus_available_iff_runnable_exact c hc) m hm
+  simp only [comboEnv] at h ⊢
+  rw [ha, hf]
+  generalize avail (envOf liveSpecs (comboInnate c)) liveFuel (comboState c m) "emodulus" = a at h ⊢
+  generalize fresh (envOf liveSpecs (comboInnate c)) liveFuel (comboState c m) "emodulus" = r at h ⊢
+  generalize emodGapS (comboState c m) c.tempF = g at h ⊢
+  cases a <;> cases g <;> cases r <;> simp_all
+
+theorem emodGap_count :
+    (allCombos.filter (fun c => emodGapS (comboState c "CellCarrier") c.tempF)).length = 8
+    ∧ (allCombos.filter (fun c => emodGapS (comboState c "other") c.tempF)).length = 6 := by
+  decide +kernel
+
+/-- presence patterns of the six crosstalk elements and the three fluorescence channels -/
+structure CtCombo where
+  k12 : Bool
+  k13 : Bool
+  k21 : Bool
+  k23 : Bool
+  k31 : Bool
+  k32 : Bool
+  h1 : Bool
+  h2 : Bool
+  h3 : Bool
+deriving DecidableEq, Repr
+
+def allCtCombos : List CtCombo :=
+  bools.flatMap fun a => bools.flatMap fun b => bools.flatMap fun c => bools.flatMap fun d =>
+  bools.flatMap fun e => bools.flatMap fun f => bools.flatMap fun g => bools.flatMap fun h =>
+  bools.map fun i =>
+    { k12 := a, k13 := b, k21 := c, k23 := d, k31 := e, k32 := f, h1 := g, h2 := h, h3 := i }
+
+def ctState (c : CtCombo) : St String String :=
+  { temp := [],
+    cfg := opt c.k12 "calculation:crosstalk fl12" "0.1" ++ opt c.k13 "calculation:crosstalk fl13" "0.2"
+        ++ opt c.k21 "calculation:crosstalk fl21" "0.3" ++ opt c.k23 "calculation:crosstalk fl23" "0.4"
+        ++ opt c.k31 "calculation:crosstalk fl31" "0.5" ++ opt c.k32 "calculation:crosstalk fl32" "0.6" }
+
+def ctInnate (c : CtCombo) : List (Feat × String) :=
+  (if c.h1 then [("fl1_max", "x")] else []) ++ (if c.h2 then [("fl2_max", "y")] else [])
+    ++ (if c.h3 then [("fl3_max", "z")] else [])
+
+def ctFeats : List (Nat × Feat) := [(1, "fl1_max_ctc"), (2, "fl2_max_ctc"), (3, "fl3_max_ctc")]
+
+/-- Over the regenerated table, for all 512 presence patterns (six crosstalk elements, three
+channels) and the three corrected features: available ⇔ (readable ∨ `ctcGapS`), and inside
+`ctcGapS` reading fails (F63, open). -/
+theorem crosstalk_available_iff_runnable_exact :
+    allCtCombos.all (fun c => ctFeats.all (fun p =>
+      let a := avail (envOf liveSpecs (ctInnate c)) liveFuel (ctState c) p.2
+      let r := (fresh (envOf liveSpecs (ctInnate c)) liveFuel (ctState c) p.2).isSome
+      let g := ctcGapS (ctState c) c.h1 c.h2 c.h3 p.1
+      (a == (r || g)) && !(g && r))) = true := by decide +kernel
+
+theorem crosstalk_available_iff_runnable_all_fuel (c : CtCombo) (hc : c ∈ allCtCombos)
+    (p : Nat × Feat) (hp : p ∈ ctFeats) (n : Nat) (hn : liveFuel ≤ n) :
+    (ctcGapS (ctState c) c.h1 c.h2 c.h3 p.1 = false →
+      (avail (envOf liveSpecs (ctInnate c)) n (ctState c) p.2 = true
+        ↔ (fresh (envOf liveSpecs (ctInnate c)) n (ctState c) p.2).isSome = true)) ∧
+    (ctcGapS (ctState c) c.h1 c.h2 c.h3 p.1 = true →
+      avail (envOf liveSpecs (ctInnate c)) n (ctState c) p.2 = true
+        ∧ fresh (envOf liveSpecs (ctInnate c)) n (ctState c) p.2 = none) := by
+  obtain ⟨ha, _, hf⟩ := live_fuel_sufficient (ctInnate c) (ctState c) p.2 n hn
+  have h := List.all_eq_true.mp (List.all_eq_true.mp crosstalk_available_iff_runnable_exact c hc) p hp
+  simp only at h ⊢
+  rw [ha, hf]
+  generalize avail (envOf liveSpecs (ctInnate c)) liveFuel (ctState c) p.2 = a at h ⊢
+  generalize fresh (envOf liveSpecs (ctInnate c)) liveFuel (ctState c) p.2 = r at h ⊢
+  generalize ctcGapS (ctState c) c.h1 c.h2 c.h3 p.1 = g at h ⊢
+  cases a <;> cases g <;> cases r <;> simp_all
+
+theorem allCtCombos_length : allCtCombos.length = 512 := by decide +kernel
+
+/-- the gap is inhabited and is not everything -/
+example : (allCtCombos.filter (fun c => ctcGapS (ctState c) c.h1 c.h2 c.h3 1)).length = 27 := by
+  decide +kernel
+
+/-- … and for ARBITRARY values: every state with the presence pattern of one of the 64
+combinations (whatever the LUT, temperature, viscosity, pixel size, … VALUES are; the medium any
+string, classified only as "other" or not) is available exactly when reading succeeds or
+`emodGapS` holds, and inside `emodGapS` reading fails — at every recursion depth ≥ `liveFuel`.
+(The model's methods reject no values; value combinations that `get_emodulus` itself rejects
+are outside the model, see ASSUMPTIONS.) -/
+theorem emodulus_gap_any_values (c : Combo) (hc : c ∈ allCombos) (m : String) (hm : m ∈ emodMedia)
+    (s : St String String)
+    (hk : ∀ k, (getC s k).isSome = (getC (comboState c m) k).isSome)
+    (hf : ∀ f, (base (comboEnv c) s f).isSome = (base (comboEnv c) (comboState c m) f).isSome)
+    (hch : chanOkStr (getC s chipKey) = chanOkStr (getC (comboState c m) chipKey))
+    (ho : otherS s = otherS (comboState c m)) (n : Nat) (hn : liveFuel ≤ n) :
+    (emodGapS s c.tempF = false →
+      (avail (comboEnv c) n s "emodulus" = true
+        ↔ (fresh (comboEnv c) n s "emodulus").isSome = true)) ∧
+    (emodGapS s c.tempF = true →
+      avail (comboEnv c) n s "emodulus" = true
+        ∧ (fresh (comboEnv c) n s "emodulus").isSome = false) := by
+  have hav := (selection_by_presence (e := comboEnv c) hk hf hch n "emodulus").2
+  have hfr := fresh_isSome_presence liveSpecs (comboInnate c) hk hf hch ho n "emodulus"
+  have hg : emodGapS s c.tempF = emodGapS (comboState c m) c.tempF := by
+    simp only [emodGapS, hasK, hk, ho]
+  have h := emodulus_available_iff_runnable_all_fuel c hc m hm n hn
+  have hfr' : (fresh (comboEnv c) n s "emodulus").isSome
+      = (fresh (comboEnv c) n (comboState c m) "emodulus").isSome := hfr
+  rw [hav, hfr', hg]
+  refine ⟨h.1, fun hgap => ?_⟩
+  obtain ⟨h1, h2⟩ := h.2 hgap
+  exact ⟨h1, by rw [h2]; rfl⟩
+
+/-- crosstalk: only presence matters (the values of the matrix elements and the channel data
+are arbitrary) -/
+theorem crosstalk_gap_any_values (c : CtCombo) (hc : c ∈ allCtCombos) (p : Nat × Feat)
+    (hp : p ∈ ctFeats) (s : St String String)
+    (hk : ∀ k, (getC s k).isSome = (getC (ctState c) k).isSome)
+    (hf : ∀ f, (base (envOf liveSpecs (ctInnate c)) s f).isSome
+                = (base (envOf liveSpecs (ctInnate c)) (ctState c) f).isSome)
+    (hch : chanOkStr (getC s chipKey) = chanOkStr (getC (ctState c) chipKey))
+    (ho : otherS s = otherS (ctState c)) (n : Nat) (hn : liveFuel ≤ n) :
+    (ctcGapS s c.h1 c.h2 c.h3 p.1 = false →
+      (avail (envOf liveSpecs (ctInnate c)) n s p.2 = true
+        ↔ (fresh (envOf liveSpecs (ctInnate c)) n s p.2).isSome = true)) ∧
+    (ctcGapS s c.h1 c.h2 c.h3 p.1 = true →
+      avail (envOf liveSpecs (ctInnate c)) n s p.2 = true
+        ∧ (fresh (envOf liveSpecs (ctInnate c)) n s p.2).isSome = false) := by
+  have hav := (selection_by_presence (e := envOf liveSpecs (ctInnate c)) hk hf hch n p.2).2
+  have hfr := fresh_isSome_presence liveSpecs (ctInnate c) hk hf hch ho n p.2
+  have hg : ctcGapS s c.h1 c.h2 c.h3 p.1 = ctcGapS (ctState c) c.h1 c.h2 c.h3 p.1 := by
+    have hK : hasK s = hasK (ctState c) := funext (fun k => by simp only [hasK, hk])
+    simp only [ctcGapS, hK]
+  have h := crosstalk_available_iff_runnable_all_fuel c hc p hp n hn
+  rw [hav, hfr, hg]
+  refine ⟨h.1, fun hgap => ?_⟩
+  obtain ⟨h1, h2⟩ := h.2 hgap
+  exact ⟨h1, by rw [h2]; rfl⟩
+
+/-! ## 8. read sets from the source; the hash covers chains of dependencies -/
+
+/-- the live registry with the read set of every method taken from its SOURCE (extracted by
+`translate()` with `ast`) where the extraction is complete -/
+def liveSpecsA : List Spec := table.map (specOfA astReads)
+
+/-- obligation over the regenerated tables: every feature / configuration key that the source
+of a compute method can access is covered by its recipe's hash (`req_features`, `req_config`,
+what `req_func` returns) or is immutable innate data -/
+theorem table_sound_ast : soundB liveSpecsA = true := by decide +kernel
+
+theorem live_cache_transparent_ast (innate : List (Feat × String)) (n : Nat)
+    (sel : String → String) (s0 : St String String) (hw : Wf (envOf liveSpecsA innate) s0)
+    (ops : List (Op String String)) :
+    (run (envOf liveSpecsA innate) n sel (s0, []) ops).2
+      = (specRun (envOf liveSpecsA innate) n sel s0 ops).2 :=
+  extended_cache_transparent liveSpecsA table_sound_ast innate n sel s0 hw ops
+
+/-- obligation over the regenerated tables: what the model says the requirement functions
+return (`reqFuncInfo`: the five `emodulus *` keys, the six crosstalk elements, the channel
+guard) is accessed by their sources -/
+theorem reqfunc_info_from_source : table.all (reqFuncSourceB astReqFunc) = true := by
+  decide +kernel
+
+/-- … a `get_crosstalk_state` that no longer looks at `crosstalk fl31` is detected statically -/
+theorem reqfunc_source_detects :
+    table.all (reqFuncSourceB [("get_crosstalk_state", [],
+      ["calculation:crosstalk fl12", "calculation:crosstalk fl13", "calculation:crosstalk fl21",
+       "calculation:crosstalk fl23", "calculation:crosstalk fl32"], true)]) = false := by
+  decide +kernel
+
+/-- a method whose source reads a key its recipe does not hash is detected statically:
+`compute_area_um` additionally reading `[setup] flow rate` -/
+theorem ast_uncovered_detected :
+    soundB (table.map (specOfA [("compute_area_um", ["area_cvx"],
+      ["imaging:pixel size", "setup:flow rate"], true)])) = false := by decide +kernel
+
+/-- Cache-key soundness for chains.  In every sound registry: two ARBITRARY states in which a
+recipe has the same hash give its method identical inputs, hence the same result — whatever
+was edited in between and however deep in the chain of ancillary dependencies it is read
+(the data of required ancillary features are hashed, and by `cache_transparent` those data
+are the fresh ones).  Contrapositive: if the fresh value differs, the hash differs, so a stale
+cache entry can never be served. -/
+theorem hash_covers_chain_value {D V : Type} {e : Env D V} (hs : Sound e) (n : Nat)
+    {s s' : St D V} (hw : Wf e s) (hw' : Wf e s') {r : Recipe D V} (hr : r ∈ e.reg)
+    (hh : freshHash e n s r = freshHash e n s' r) :
+    r.compute (r.readsF.map (fresh e n s)) (r.readsC.map (getC s))
+      = r.compute (r.readsF.map (fresh e n s')) (r.readsC.map (getC s')) := by
+  obtain ⟨h1, h2⟩ := hash_covers_chain hs n hw hw' hr hh
+  rw [h1, h2]
+
+/-- for the live registry with source-extracted read sets -/
+theorem live_hash_covers_chain (innate : List (Feat × String)) (n : Nat)
+    {s s' : St String String} (hw : Wf (envOf liveSpecsA innate) s)
+    (hw' : Wf (envOf liveSpecsA innate) s') {r : Recipe String String}
+    (hr : r ∈ (envOf liveSpecsA innate).reg)
+    (hh : freshHash (envOf liveSpecsA innate) n s r = freshHash (envOf liveSpecsA innate) n s' r) :
+    r.compute (r.readsF.map (fresh (envOf liveSpecsA innate) n s)) (r.readsC.map (getC s))
+      = r.compute (r.readsF.map (fresh (envOf liveSpecsA innate) n s')) (r.readsC.map (getC s')) :=
+  hash_covers_chain_value (sound_of_soundB liveSpecsA innate table_sound_ast) n hw hw' hr hh
+
+/-- non-vacuity (a chain): `volume` hashes the DATA of `contour`, which is computed from
+`mask`; a state with another mask has another `volume` hash although `volume`'s own
+`req_features` / `req_config` entries did not change by name -/
+example :
+    let e1 := envOf liveSpecsA [("mask", "m1"), ("pos_x", "x"), ("pos_y", "y")]
+    let e2 := envOf liveSpecsA [("mask", "m2"), ("pos_x", "x"), ("pos_y", "y")]
+    let s : St String String := { temp := [], cfg := [("imaging:pixel size", "0.34")] }
+    (liveSpecsA.filter (fun p => p.name == "volume")).map
+        (fun p => (freshHash e1 liveFuel s p.toRecipe).fs)
+      ≠ (liveSpecsA.filter (fun p => p.name == "volume")).map
+        (fun p => (freshHash e2 liveFuel s p.toRecipe).fs) := by
   decide +kernel
 
 end DclabModel.C06
